@@ -14,6 +14,17 @@ if ! CARGO_TARGET_DIR="$VERIF_DIR/target" cargo build --release --offline >"$VER
   echo "HARNESS ERROR: build failed" >&2
   exit 2
 fi
+# the same harness once more, with fastrace's own debug assertions and overflow checks compiled in:
+# every fourth worker process of a check runs this build (see DESIGN.md B.9)
+if ! CARGO_TARGET_DIR="$VERIF_DIR/target-checked" cargo build --release --offline \
+     --config 'profile.release.package.fastrace.debug-assertions=true' \
+     --config 'profile.release.package.fastrace.overflow-checks=true' \
+     --config 'profile.release.package.fastrace-futures.debug-assertions=true' \
+     --config 'profile.release.package.fastrace-futures.overflow-checks=true' >"$VERIF_DIR/target-build-checked.log" 2>&1; then
+  cat "$VERIF_DIR/target-build-checked.log" >&2
+  echo "HARNESS ERROR: build (checked) failed" >&2
+  exit 2
+fi
 cd "$VERIF_DIR"
 BIN="$VERIF_DIR/target/release/dst"
 case "${1:-}" in
